@@ -27,7 +27,7 @@ TRUSTED = ["g++ 12 as the judge of 'valid C++17'; the API declarations are gener
            "the C++ string-literal decoder in vlib/c16.py (escape sequences of C++17 [lex.ccon])"]
 
 HANDLER_FOR = {(): "onFired", ("bool",): "onToggled", ("int",): "onIChanged", ("double",): "onDChanged", ("QString",): "onSChanged", ("int", "QString"): "onFired2"}
-EXTRA_STRINGS = ["\x01", "\x00" + "1", "a\x00", "\x1f", "\x7f", "\u0080", " ", " ", "퟿", "", "\U0001f600x", "??=", "%d", "\\n", "'", "a\rb", "\x0b\x0c", "￿", "tr(\"x\")",
+EXTRA_STRINGS = ["Cr\u00e9er", "caf\u00e9e", "\u00e9a1", "R\u00e9f\u00e9rences", "\u0085d", "\x01", "\x00" + "1", "a\x00", "\x1f", "\x7f", "\u0080", " ", " ", "퟿", "", "\U0001f600x", "??=", "%d", "\\n", "'", "a\rb", "\x0b\x0c", "￿", "tr(\"x\")",
                  "/*", "*/", "//", "\"\"", "\\", "0\x00" + "7", "\x08\x07", "ÿ", "\x1b[0m"]
 
 
@@ -86,6 +86,53 @@ def decode_cxx_literal(text):
         else:
             return None
     return "".join(chr(c) for c in out)
+
+
+def narrow_literal_problem(header):
+    """the narrow literals of the header (the source text handed to translate(), the bare strings sent to qDebug): each has to be a well-formed C++ literal whose
+    bytes are valid UTF-8.  Returns (literal, what is wrong) for the first offender, or None"""
+    lits = [m.group(1) for m in re.finditer(r'translate\("(?:[^"\\]|\\.)*", "((?:[^"\\]|\\.)*)"\)', header)]
+    for line in header.split("\n"):
+        if "qDebug()" in line or "qWarning()" in line or "qInfo()" in line or "qCritical()" in line:
+            lits += [m.group(1) for m in re.finditer(r'<< "((?:[^"\\]|\\.)*)"', line)]
+    for lit in lits:
+        out = bytearray()
+        i = 0
+        while i < len(lit):
+            ch = lit[i]
+            if ch != "\\":
+                out += ch.encode("utf-8")
+                i += 1
+                continue
+            e = lit[i + 1]
+            if e in "01234567":
+                j = i + 1
+                while j < len(lit) and j < i + 4 and lit[j] in "01234567":
+                    j += 1
+                v = int(lit[i + 1:j], 8)
+                if v > 255:
+                    return (lit, "octal escape out of range")
+                out.append(v)
+                i = j
+            elif e == "x":
+                j = i + 2
+                while j < len(lit) and lit[j] in "0123456789abcdefABCDEF":       # a hex escape takes EVERY hex digit that follows
+                    j += 1
+                if j == i + 2:
+                    return (lit, "\\x without digits")
+                v = int(lit[i + 2:j], 16)
+                if v > 255:
+                    return (lit, "hex escape out of range (it swallows the hex digits that follow: \\x%s)" % lit[i + 2:j])
+                out.append(v)
+                i = j
+            else:
+                out += {"n": b"\n", "t": b"\t", "r": b"\r", "\\": b"\\", '"': b'"', "'": b"'", "a": b"\a", "b": b"\b", "f": b"\f", "v": b"\v", "?": b"?"}.get(e, b"?")
+                i += 2
+        try:
+            bytes(out).decode("utf-8")
+        except UnicodeDecodeError:
+            return (lit, "its bytes %s are not UTF-8" % bytes(out).hex())
+    return None
 
 
 def literal_texts(header):
@@ -197,6 +244,8 @@ def run(ctx):
         items.append(("binding", "s", "a.s + " + prog.qml_str(s), "string"))
         items.append(("binding", "names", "[a.s, %s]" % prog.qml_str(s), "strlist"))
         items.append(("handler", "onFired", "console.log(%s, a.s)" % prog.qml_str(s), None))
+        if "\x00" not in s:
+            items.append(("binding", "s", "a.b ? qsTr(%s) : a.s" % prog.qml_str(s), "string"))
     # operators on every operand type the checker may admit
     for op in ["+", "-", "*", "/", "%", "&", "|", "^", "<<", ">>", "<", "<=", "==", "!="]:
         for (ty, l, r) in [("int", "a.i", "b.i"), ("int", "a.i", "7"), ("uint", "a.u", "b.u"), ("uint", "a.u", "3"), ("double", "a.d", "b.d"), ("double", "a.d", "2.5"),
@@ -349,6 +398,10 @@ def run(ctx):
     seen_known = {}
     for (k, d, doc, chunk, header), (rc, err) in zip(jobs, results):
         rep = {"qml": doc, "impl_output": header}
+        nl = narrow_literal_problem(header)
+        if nl:
+            ctx.violation("a narrow string literal of the support header is wrong: \"%s\" -- %s" % (nl[0][:80], nl[1]), dict(rep, theorem_or_correspondence="C16_literal_denotes_source / S (narrow literals)"))
+            continue
         und = cxx.undeclared_temporaries(header)
         if und:
             ctx.violation("the support header uses the temporary %s in %s() without declaring it" % (und[0][1], und[0][0]), dict(rep, theorem_or_correspondence="every temporary is declared / header scan"))
